@@ -347,13 +347,29 @@ def r_lookup(ctx, rule, tables):
             continue
         if e["site"] not in getattr(model.interp, "fetchone_sites", ()):
             continue
+        if st.cols == ["COUNT()"] or st.extra.get("functions"):
+            continue      # an aggregate: one computed row, not the row of an object
         if e["site"] in seen:
             continue
         seen.add(e["site"])
         n += 1
         eq = e["binds"]["where_eq"]
         ok = eq is not None and len(eq) >= 1 and not st.extra.get("joins")
-        ctx.ob(rule, construct_of(e) + " [lookup]", ok, e, "" if ok else
-               "the row fetched by %s is not determined by its key: another row can be "
-               "returned" % st.normalized())
+        why = "the row fetched by %s is not determined by its key: another row can be " \
+            "returned" % st.normalized()
+        if ok:
+            # the equalities must cover a key of the table (declared PRIMARY KEY /
+            # UNIQUE, or the logical key the insert guards maintain)
+            from ..e3 import LOGICAL_KEYS
+            table = ctx.repo.channel_schema().tables.get(st.table)
+            keys = [tuple(k) for k in table.unique_keys()] if table else []
+            if st.table in LOGICAL_KEYS:
+                keys.append(tuple(LOGICAL_KEYS[st.table]))
+            if keys and not any(set(k) <= set(eq) for k in keys):
+                ok = False
+                why = "the lookup %s is keyed by (%s), which is not a key of `%s` (%s): it " \
+                    "returns some row among several" % (
+                        st.normalized(), ",".join(sorted(eq)), st.table,
+                        " / ".join("(%s)" % ",".join(k) for k in keys))
+        ctx.ob(rule, construct_of(e) + " [lookup]", ok, e, "" if ok else why)
     ctx.require(rule, n, 1, "single-row lookups")
